@@ -31,7 +31,7 @@ def run(prop, tier, seed, nshards, binary, replay, rsmon=None, run_shards=None, 
         with open(replay) as f:
             data = json.load(f)
         mod = c17 if prop == "C17" else WORKERS[prop]
-        kw = {"rsmon": rsmon} if prop == "C12" else {}
+        kw = {"rsmon": rsmon} if prop in ("C12", "C10") else {}
         rep = mod.replay(binary, data, **kw)
         merged = merge_reports([rep])
         return merged, 0, problems
@@ -48,7 +48,7 @@ def run(prop, tier, seed, nshards, binary, replay, rsmon=None, run_shards=None, 
         from concurrent.futures import ProcessPoolExecutor
         from concurrent.futures.process import BrokenProcessPool
         mod = WORKERS[prop]
-        extra = (rsmon,) if prop == "C12" else ()
+        extra = (rsmon,) if prop in ("C12", "C10") else ()
         jobs = [(mod.worker, (i, nshards, tier, seed, binary) + extra) for i in range(nshards)]
         reports = []
         with ProcessPoolExecutor(max_workers=nshards, mp_context=ctx) as ex:
